@@ -22,3 +22,19 @@ package rangetask
 //@   ensures empty: endKey != "" && startKey >= endKey ==> result == nil
 //@   ensures failed: result == nil && !(endKey != "" && startKey >= endKey) ==> forall i int :: 0 <= i && i < len(workers) ==> workers[i].err == nil
 //@   ensures whole: result == nil && !(endKey != "" && startKey >= endKey) ==> isLast && allPushed
+
+// sendReqOnRange deletes [r.StartKey, r.EndKey) region by region:
+// request: every delete-range request goes to the region that contains the cursor, starts at the cursor and ends at the
+//          region's end, or at the end of the task range when the region reaches or passes it (then it is the last one);
+// walk:    the next cursor is the end of the request just acknowledged (a region error repeats the same cursor);
+// whole:   a nil error means the last request (ending at the task's end) was acknowledged, or the range was empty.
+//@ func (t *DeleteRangeTask) sendReqOnRange
+//@   prop C14
+//@   bytes: key
+//@   at call(SendReq) assert request: arg1 != nil && arg1.Req.(*kvrpcpb.DeleteRangeRequest).StartKey == startKey &&
+//@       arg1.Req.(*kvrpcpb.DeleteRangeRequest).EndKey == ite(isLast, rangeEndKey, loc.EndKey) && arg1.Req.(*kvrpcpb.DeleteRangeRequest).NotifyOnly == t.notifyOnly &&
+//@       arg2 == loc.Region && inRange(loc.StartKey, loc.EndKey, startKey) && isLast == (loc.EndKey == "" || (rangeEndKey != "" && loc.EndKey >= rangeEndKey))
+//@   loop 1 step walk: startKey == prev(startKey) || (startKey == endKey && !isLast && prev(startKey) < startKey)
+//@   ensures whole: result1 == nil ==> isLast || (rangeEndKey != "" && startKey >= rangeEndKey)
+
+//@ spec func inRange(s []byte, e []byte, k []byte) bool { return s <= k && (e == "" || k < e) }
